@@ -51,6 +51,14 @@ fn main() {
             dispatch!(args[2].as_str(), run_property, &ctx)
         }
         "probes" => c16::list_probes(),
+        // rrtk-verif corpus:<ID> <dir>: write the seed corpus of a property's fuzz target
+        m if m.starts_with("corpus:") => {
+            fn go<P: Property>(dir: &std::path::Path) -> i32 {
+                checks::fuzz::write_corpus::<P>(dir)
+            }
+            let dir = std::path::PathBuf::from(&args[2]);
+            dispatch!(&m[7..], go, &dir)
+        }
         // run one libFuzzer input file through the fuzz entry point of a property: rrtk-verif fuzzone:<ID> <file>
         m if m.starts_with("fuzzone:") => {
             let data = std::fs::read(&args[2]).unwrap_or_default();
